@@ -182,6 +182,76 @@ class WorkerPool(object):
                 w['p'].kill()
 
 
+def enumeration_cross_check(results, tmpl, findings, seed, budget, nproc):
+    """Independent check of the path explorer: for a seed-rotated sample of confirmed templates, enumerate concrete inputs over a
+    small value domain that realises every order / equality pattern of the label-like inputs (2k+1 values for k such inputs; data
+    cells get fixed distinct values, NaN bits both values) and run the same harness on the REAL stack; every non-rejected
+    assignment must satisfy the oracle.  (Not the deciding step - it cross-checks that the symbolic exploration skipped nothing.)"""
+    import itertools
+    ntemplates, cap = budget
+    rng = random.Random(seed + 13)
+    names = [n for n, r in sorted(results.items()) if r['status'] == 'confirmed' and r.get('witnesses')]
+    rng.shuffle(names)
+    out = {'templates': 0, 'assignments': 0, 'holds': 0, 'rejected': 0, 'errors': 0, 'violations': []}
+    jobs = []
+    for name in names:
+        if out['templates'] >= ntemplates:
+            break
+        w = results[name]['witnesses'][0]['inputs']
+        # the set of inputs must not depend on the path (true for templates without symbolic NaN bits / choices on other paths)
+        keysets = set(tuple(sorted(x['inputs'].keys())) for x in results[name]['witnesses'])
+        if len(keysets) != 1:
+            continue
+        lab, fixed, bools = [], {}, []
+        for k, v in sorted(w.items()):
+            if isinstance(v, bool):
+                bools.append(k)
+            elif k[:1] in 'vwu' and k[1:2].isdigit() or k.startswith('rhs') or k in ('s', 'meta', 'val', 'val2'):
+                fixed[k] = v
+            else:
+                lab.append((k, v))
+        if len(lab) > 7 or len(lab) == 0:
+            continue
+        dom = list(range(2 * len(lab) + 1))
+        total = (len(dom) ** len(lab)) * (2 ** len(bools))
+        t = tmpl[name]
+        space = itertools.product(*([dom] * len(lab) + [[False, True]] * len(bools)))
+        if total > cap:
+            picks = set(rng.sample(range(total), cap))
+            space = (x for i, x in enumerate(space) if i in picks)
+        out['templates'] += 1
+        for j, vals in enumerate(space):
+            inp = {}
+            for (k, v0), x in zip(lab, vals):
+                if isinstance(v0, dict):
+                    inp[k] = {'__rank__': x}
+                elif isinstance(v0, float):
+                    inp[k] = float(x) / 2.0 if k in ('tol',) else float(x)
+                else:
+                    inp[k] = x
+            for k, x in zip(bools, vals[len(lab):]):
+                inp[k] = x
+            for i, k in enumerate(sorted(fixed)):
+                inp[k] = (100 + 7 * i) if isinstance(fixed[k], int) and not isinstance(fixed[k], bool) else (100.5 + 7 * i)
+            jobs.append({'id': '%s@%d' % (name, j), 'mod': t['mod'], 'fn': t['fn'], 'params': t['params'], 'inputs': inp, 'model_obs': None})
+    res = run_real(jobs, nproc=nproc)
+    byid = dict((j['id'], j) for j in jobs)
+    for jid, rr in res.items():
+        out['assignments'] += 1
+        st = rr['status']
+        if st == 'holds':
+            out['holds'] += 1
+        elif st == 'reject':
+            out['rejected'] += 1
+        elif st == 'violates':
+            hit = [rid for rid, v in (rr.get('regions') or {}).items() if v and rid in findings]
+            if not hit:
+                out['violations'].append((jid.rsplit('@', 1)[0], byid[jid]['inputs'], rr))
+        else:
+            out['errors'] += 1
+    return out
+
+
 def second_solver_check(results, nproc):
     """re-check dumped (discharged) obligations with the independent solver binaries /usr/bin/z3 (4.8.12) and cvc5 (1.0.3):
     they must not answer `sat`; a timeout / unknown / unsupported construct is 'no information'"""
@@ -384,6 +454,14 @@ def main(argv):
             if results[name]['status'] == 'confirmed':
                 results[name]['status'] = 'inconclusive'
                 results[name]['reasons'] = ['model/real-stack disagreement on a path witness: %s %s' % (rr['status'], str(rr.get('mismatch') or rr.get('err'))[:300])]
+    enum = enumeration_cross_check(results, tmpl, findings, seed, {'quick': (10, 1500), 'thorough': (60, 12000)}[tier], jobs_n)
+    for name, inputs, rr in enum['violations']:
+        t = tmpl[name]
+        path = write_replay(prop, t, {'inputs': inputs, 'obs': None}, rr, 'bounded exhaustive concrete cross-check on the real stack')
+        if results[name]['status'] != 'violation':
+            violations.append((name, path))
+            results[name]['status'] = 'violation'
+            results[name]['replay'] = path
     second = second_solver_check(results, jobs_n)
     for name in second['disagree']:
         if results[name]['status'] == 'confirmed':
@@ -445,6 +523,7 @@ def main(argv):
             'counterexamples_replayed_on_real_stack': real_cex_checked,
             'model_real_mismatches': len(mismatches),
             'spurious_model_counterexamples': spurious,
+            'cross_check_enumeration_on_real_stack': dict((k, v) for k, v in enum.items() if k != 'violations'),
             'second_solver': dict((k, v) for k, v in second.items() if k != 'disagree'),
             'second_solver_disagreements': second['disagree'],
             'fresh_solver_queries': sum(r.get('fresh_solver_queries', 0) for r in results.values()),
